@@ -8,10 +8,11 @@ import core
 
 warnings.filterwarnings('ignore')
 PROP = 'C08'
-LEAN_TARGETS = ['MM.Props.C08', 'MM.Audit.C08', 'MM.Driver.Wire']
+LEAN_TARGETS = ['MM.Props.C08', 'MM.Audit.C08', 'MM.Driver.Wire', 'MM.Props.MemoTie']
 THEOREMS = ['MM.DiagCache.' + n for n in (
     'C08_obligation_clears', 'C08_obligation_y', 'C08_cache_all_complete', 'C08_init_coherent', 'C08_step_coherent',
     'C08_read_fresh', 'C08_no_stale', 'C08_no_stale_from', 'C08_setY_clears_x')]
+THEOREMS = list(THEOREMS) + ['MM.Memo.tie_memoised']
 TRUSTED_BASE = [
     'Lean 4.33.0 kernel; axioms propext, Quot.sound (audited per theorem)',
     'translator T3 (harness/translate.py): the caches unconditionally reset by the x setter, whether the y setter ends with '
